@@ -48,6 +48,7 @@ Definition orc (o : toracles) (intls : bool) : oracles :=
   {| o_helo := o_helo (o_clear o); o_addr := o_addr (o_clear o); o_ext := o_ext (o_clear o);
      o_relay := o_relay (o_clear o); o_mx := o_mx (o_clear o); o_qq := o_qq (o_clear o);
      o_databytes := o_databytes (o_clear o); o_liphost := o_liphost (o_clear o);
+     o_check2822 := o_check2822 (o_clear o);
      o_trace := if intls then o_trace_tls o else o_trace (o_clear o) |}.
 
 (** the client's script *)
